@@ -61,10 +61,16 @@ def sub(name):
 
 
 _driver = None
+_driver_lock = __import__("threading").Lock()
 
 
 def driver():
     """Build (once per run) the Go driver from /repo's current working tree."""
+    with _driver_lock:
+        return _driver_locked()
+
+
+def _driver_locked():
     global _driver
     if _driver:
         return _driver
@@ -114,6 +120,7 @@ def driver_json(args, **kw):
 # --------------------------------------------------------------------------- TLC
 
 _tlc_n = 0
+_tlc_lock = __import__("threading").Lock()
 
 RE_STATES = re.compile(r"(\d+) states generated, (\d+) distinct states found, (\d+) states left on queue")
 RE_PRINT = re.compile(r'^<<"([A-Z_]+)", (.*)>>$')
@@ -158,8 +165,9 @@ def run_tlc(files, module, cfg, workers=1, timeout=900, simulate=None, depth=Non
     violation; raises MachineryError on crashes/timeouts is left to the caller via .errors).
     """
     global _tlc_n
-    _tlc_n += 1
-    d = sub("tlc%d" % _tlc_n)
+    with _tlc_lock:
+        _tlc_n += 1
+        d = sub("tlc%d" % _tlc_n)
     for f in files:
         shutil.copy(f, d)
     for name, path in (cwd_files or {}).items():
